@@ -26,6 +26,13 @@ inductive Err where
   | index
 deriving DecidableEq, Repr, Inhabited
 
+instance {ε α : Type} [DecidableEq ε] [DecidableEq α] : DecidableEq (Except ε α) := fun a b =>
+  match a, b with
+  | .ok x, .ok y => if h : x = y then isTrue (by rw [h]) else isFalse (fun e => h (by injection e))
+  | .error x, .error y => if h : x = y then isTrue (by rw [h]) else isFalse (fun e => h (by injection e))
+  | .ok _, .error _ => isFalse (fun e => by cases e)
+  | .error _, .ok _ => isFalse (fun e => by cases e)
+
 def Err.name : Err → String
   | .validation => "ValidationError"
   | .value => "ValueError"
@@ -97,9 +104,25 @@ structure MetaObj where
   fieldsSet : List String
 deriving DecidableEq, Repr, Inhabited
 
-def fieldNames : List String :=
-  ["geff_version", "directed", "axes", "node_props_metadata", "edge_props_metadata", "sphere",
-   "ellipsoid", "track_node_props", "related_objects", "display_hints", "extra"]
+/-- the declared top-level fields, in declaration order -/
+inductive Field where
+  | geff_version | directed | axes | node_props_metadata | edge_props_metadata | sphere | ellipsoid
+  | track_node_props | related_objects | display_hints | extra
+deriving DecidableEq, Repr, Inhabited
+
+def Field.all : List Field :=
+  [.geff_version, .directed, .axes, .node_props_metadata, .edge_props_metadata, .sphere, .ellipsoid,
+   .track_node_props, .related_objects, .display_hints, .extra]
+
+def Field.name : Field → String
+  | .geff_version => "geff_version" | .directed => "directed" | .axes => "axes"
+  | .node_props_metadata => "node_props_metadata" | .edge_props_metadata => "edge_props_metadata"
+  | .sphere => "sphere" | .ellipsoid => "ellipsoid" | .track_node_props => "track_node_props"
+  | .related_objects => "related_objects" | .display_hints => "display_hints" | .extra => "extra"
+
+def Field.ofName? (s : String) : Option Field := Field.all.find? (fun f => f.name = s)
+
+def fieldNames : List String := Field.all.map Field.name
 
 def requiredFields : List String := ["directed", "node_props_metadata", "edge_props_metadata"]
 
@@ -135,6 +158,27 @@ def getReqStr (kvs : List (String × J)) (k : String) : Except Err String :=
   | some v => getStr v
   | none => .error .validation
 
+/-- `if not c: raise ValidationError` -/
+def guardE (c : Bool) : Except Err Unit := if c then .ok () else .error .validation
+
+/-- `[f(x) for x in xs]` where `f` may raise: the first error wins -/
+def mapE {α β : Type} (f : α → Except Err β) : List α → Except Err (List β)
+  | [] => .ok []
+  | x :: xs =>
+    match f x with
+    | .error e => .error e
+    | .ok y =>
+      match mapE f xs with
+      | .error e => .error e
+      | .ok ys => .ok (y :: ys)
+
+def mapO {α β : Type} (f : α → Option β) : List α → Option (List β)
+  | [] => some []
+  | x :: xs =>
+    match f x, mapO f xs with
+    | some y, some ys => some (y :: ys)
+    | _, _ => none
+
 /-- Python truthiness of `str | None` -/
 def truthy : Option String → Bool
   | some s => s ≠ ""
@@ -142,22 +186,29 @@ def truthy : Option String → Bool
 
 /-! ## Axis -/
 
-/-- `Axis._validate_model` (the unit warnings do not raise and are not modelled) -/
+/-- the three tests of `Axis._validate_model` (the unit warnings do not raise and are not modelled):
+exactly one of min/max given; `min > max`; a (truthy) scaled unit without a scale -/
+def Axis.modelBad (a : Axis) : Bool :=
+  (a.min.isNone != a.max.isNone) ||
+  (match a.min, a.max with
+   | some lo, some hi => F.gt lo hi
+   | _, _ => false) ||
+  (truthy a.scaled_unit && a.scale.isNone)
+
+/-- `Axis._validate_model` -/
 def Axis.validateModel (a : Axis) : Except Err Axis :=
-  if a.min.isNone != a.max.isNone then .error .validation
-  else if (match a.min, a.max with
-           | some lo, some hi => F.gt lo hi
-           | _, _ => false) then .error .validation
-  else if truthy a.scaled_unit && a.scale.isNone then .error .validation
-  else .ok a
+  if a.modelBad then .error .validation else .ok a
+
+/-- `AxisType | None`: a string must be one of the `Literal` members -/
+def axisTypeOk : Option String → Bool
+  | some t => decide (t ∈ Gen.ValidValues.axisTypes)
+  | none => true
 
 def parseAxis : J → Except Err Axis
   | .obj kvs => do
     let name ← getReqStr kvs "name"
     let type ← getOptStr (lookup kvs "type")
-    match type with
-    | some t => if t ∈ Gen.ValidValues.axisTypes then pure () else throw .validation
-    | none => pure ()
+    guardE (axisTypeOk type)
     let unit ← getOptStr (lookup kvs "unit")
     let min ← getOptNum (lookup kvs "min")
     let max ← getOptNum (lookup kvs "max")
@@ -176,21 +227,26 @@ def convertDtype (env : Env) (raw : J) : Except Err String :=
     match env.npName s with
     | none => .error .validation          -- numpy TypeError → ValueError
     | some name =>
-      if name ∈ Gen.ValidValues.dtypes then
-        (if name.length ≥ 1 then .ok name else .error .validation)
-      else .error .validation
+      if name ∈ Gen.ValidValues.dtypes ∧ name.length ≥ 1 then .ok name else .error .validation
   | _ => .error .validation               -- None, numbers, …: ValueError / TypeError → ValueError
+
+def getReqDtype (env : Env) (kvs : List (String × J)) : Except Err String :=
+  match lookup kvs "dtype" with
+  | some v => convertDtype env v
+  | none => .error .validation
+
+/-- `bool` with a default -/
+def getBoolOr (v : Option J) (dflt : Bool) : Except Err Bool :=
+  match v with
+  | some v => getBool v
+  | none => .ok dflt
 
 def parseProp (env : Env) : J → Except Err PropMeta
   | .obj kvs => do
     let identifier ← getReqStr kvs "identifier"
-    if identifier.length ≥ 1 then pure () else throw .validation
-    let dtype ← match lookup kvs "dtype" with
-      | some v => convertDtype env v
-      | none => .error .validation
-    let varlength ← match lookup kvs "varlength" with
-      | some v => getBool v
-      | none => .ok false
+    guardE (decide (identifier.length ≥ 1))
+    let dtype ← getReqDtype env kvs
+    let varlength ← getBoolOr (lookup kvs "varlength") false
     let unit ← getOptStr (lookup kvs "unit")
     let name ← getOptStr (lookup kvs "name")
     let description ← getOptStr (lookup kvs "description")
@@ -223,69 +279,64 @@ def parseHint : J → Except Err DisplayHint
 /-! ## GeffMetadata: field validators -/
 
 def parsePropsDict (env : Env) : J → Except Err (List (String × PropMeta))
-  | .obj kvs => kvs.mapM (fun kv => do let p ← parseProp env kv.2; return (kv.1, p))
+  | .obj kvs => mapE (fun kv => (parseProp env kv.2).map (fun p => (kv.1, p))) kvs
   | _ => .error .validation
 
 def parseTrackProps : J → Except Err (Option (List (String × String)))
   | .null => .ok none
   | .obj kvs => do
-    let l ← kvs.mapM (fun kv => do
-      if kv.1 ∈ trackKeys then pure () else throw Err.validation
-      let s ← getStr kv.2
-      return (kv.1, s))
+    let l ← mapE (fun kv => if kv.1 ∈ trackKeys then (getStr kv.2).map (fun s => (kv.1, s)) else .error .validation) kvs
     return some l
   | _ => .error .validation
 
-/-- The validator of one top-level field, storing the validated value.  It is what
-`GeffMetadata(**doc)` runs per provided key and what `validate_assignment` runs for `obj.f = v`.
-An unknown name is `no_such_attribute` on assignment (construction filters unknown keys out before). -/
+/-- `geff_version: str = Field(pattern=VERSION_PATTERN)` -/
+def parseVersion (env : Env) (v : J) : Except Err String := do
+  let s ← getStr v
+  guardE (env.versionOk s)
+  return s
+
+/-- `list[Axis] | None` -/
+def parseAxesField : J → Except Err (Option (List Axis))
+  | .null => .ok none
+  | .arr xs => (mapE parseAxis xs).map some
+  | _ => .error .validation
+
+/-- `list[RelatedObject] | None` -/
+def parseRelatedField : J → Except Err (Option (List RelatedObject))
+  | .null => .ok none
+  | .arr xs => (mapE parseRelated xs).map some
+  | _ => .error .validation
+
+/-- `DisplayHint | None` -/
+def parseHintField : J → Except Err (Option DisplayHint)
+  | .null => .ok none
+  | j => (parseHint j).map some
+
+/-- `dict[str, Any]` -/
+def parseExtraField : J → Except Err (List (String × J))
+  | .obj kvs => .ok kvs
+  | _ => .error .validation
+
+/-- The validator of one declared field, storing the validated value.  It is what
+`GeffMetadata(**doc)` runs per provided key and what `validate_assignment` runs for `obj.f = v`. -/
+def setFieldT (env : Env) (m : Meta) : Field → J → Except Err Meta
+  | .geff_version, v => (parseVersion env v).map (fun s => { m with geff_version := s })
+  | .directed, v => (getBool v).map (fun b => { m with directed := b })
+  | .axes, v => (parseAxesField v).map (fun l => { m with axes := l })
+  | .node_props_metadata, v => (parsePropsDict env v).map (fun d => { m with node_props_metadata := d })
+  | .edge_props_metadata, v => (parsePropsDict env v).map (fun d => { m with edge_props_metadata := d })
+  | .sphere, v => (getOptStr (some v)).map (fun s => { m with sphere := s })
+  | .ellipsoid, v => (getOptStr (some v)).map (fun s => { m with ellipsoid := s })
+  | .track_node_props, v => (parseTrackProps v).map (fun t => { m with track_node_props := t })
+  | .related_objects, v => (parseRelatedField v).map (fun l => { m with related_objects := l })
+  | .display_hints, v => (parseHintField v).map (fun h => { m with display_hints := h })
+  | .extra, v => (parseExtraField v).map (fun e => { m with extra := e })
+
+/-- by name; an unknown name is `no_such_attribute` on assignment (construction never asks for one) -/
 def setField (env : Env) (m : Meta) (f : String) (v : J) : Except Err Meta :=
-  if f = "geff_version" then do
-    let s ← getStr v
-    if env.versionOk s then return { m with geff_version := s } else throw .validation
-  else if f = "directed" then do
-    let b ← getBool v
-    return { m with directed := b }
-  else if f = "axes" then
-    match v with
-    | .null => .ok { m with axes := none }
-    | .arr xs => do
-      let l ← xs.mapM parseAxis
-      return { m with axes := some l }
-    | _ => .error .validation
-  else if f = "node_props_metadata" then do
-    let d ← parsePropsDict env v
-    return { m with node_props_metadata := d }
-  else if f = "edge_props_metadata" then do
-    let d ← parsePropsDict env v
-    return { m with edge_props_metadata := d }
-  else if f = "sphere" then do
-    let s ← getOptStr (some v)
-    return { m with sphere := s }
-  else if f = "ellipsoid" then do
-    let s ← getOptStr (some v)
-    return { m with ellipsoid := s }
-  else if f = "track_node_props" then do
-    let t ← parseTrackProps v
-    return { m with track_node_props := t }
-  else if f = "related_objects" then
-    match v with
-    | .null => .ok { m with related_objects := none }
-    | .arr xs => do
-      let l ← xs.mapM parseRelated
-      return { m with related_objects := some l }
-    | _ => .error .validation
-  else if f = "display_hints" then
-    match v with
-    | .null => .ok { m with display_hints := none }
-    | _ => do
-      let h ← parseHint v
-      return { m with display_hints := some h }
-  else if f = "extra" then
-    match v with
-    | .obj kvs => .ok { m with extra := kvs }
-    | _ => .error .validation
-  else .error .validation
+  match Field.ofName? f with
+  | some t => setFieldT env m t v
+  | none => .error .validation
 
 /-! ## GeffMetadata: the `mode="after"` model validator -/
 
@@ -354,13 +405,12 @@ def parse (env : Env) : J → Except Err MetaObj
 the outcome and the object afterwards.  (Without the roll-back a failure of the model validator
 left `o'` behind — defect D3.) -/
 def assign (env : Env) (o : MetaObj) (f : String) (v : J) : Option Err × MetaObj :=
-  if f ∈ fieldNames then
-    match setField env o.val f v with
-    | .error e => (some e, o)
-    | .ok m' =>
-      let o' : MetaObj := { val := m', fieldsSet := fieldNames.filter (fun g => o.fieldsSet.contains g || g == f) }
-      if modelAfterOk m' then (none, o') else (some .validation, o)
-  else (some .validation, o)
+  match setField env o.val f v with
+  | .error e => (some e, o)
+  | .ok m' =>
+    if modelAfterOk m' then
+      (none, { val := m', fieldsSet := fieldNames.filter (fun g => o.fieldsSet.contains g || g == f) })
+    else (some .validation, o)
 
 /-- `model_copy()` / `copy.deepcopy`: values are immutable here, so a copy is the same value -/
 def copy (o : MetaObj) : MetaObj := o
@@ -376,10 +426,9 @@ def pick {α : Type} (l : Option (List (Option α))) (i : Nat) : Except Err (Opt
     | none => .error .index
 
 /-- `Axis(name=…, type=…, …)` from already typed arguments: field check of `type`, then the model validator -/
-def mkAxis (a : Axis) : Except Err Axis :=
-  match a.type with
-  | some t => if t ∈ Gen.ValidValues.axisTypes then a.validateModel else .error .validation
-  | none => a.validateModel
+def mkAxis (a : Axis) : Except Err Axis := do
+  guardE (axisTypeOk a.type)
+  a.validateModel
 
 def axesLoop (names : List String) (units types scaledUnits : Option (List (Option String)))
     (scales offset roiMin roiMax : Option (List (Option F))) : Nat → List String → Except Err (List Axis)
@@ -472,7 +521,7 @@ def dictUpdate (existing mdDict : List (String × PropMeta)) : List (String × P
 `PropMetadata`, `c_type` must be `"node"` or `"edge"`); works on a deep copy -/
 def addOrUpdatePropsMetadata (env : Env) (o : MetaObj) (props : List J) (cType : String) :
     Except Err MetaObj := do
-  let ps ← props.mapM (parseProp env)
+  let ps ← mapE (parseProp env) props
   if cType = "node" then
     let (ex, md) := addPropsLoop ps o.val.node_props_metadata []
     return { o with val := { o.val with node_props_metadata := dictUpdate ex md } }
@@ -608,7 +657,7 @@ def ofDumpHint : J → Option DisplayHint
   | _ => none
 
 def ofDumpPropsDict : Option J → Option (List (String × PropMeta))
-  | some (.obj kvs) => kvs.mapM (fun kv => do let p ← ofDumpProp kv.2; return (kv.1, p))
+  | some (.obj kvs) => mapO (fun kv => (ofDumpProp kv.2).map (fun p => (kv.1, p))) kvs
   | _ => none
 
 def ofDump : J → Option Meta
@@ -619,7 +668,7 @@ def ofDump : J → Option Meta
       | _ => none
     let axes ← match lookup kvs "axes" with
       | some .null => some none
-      | some (.arr xs) => (xs.mapM ofDumpAxis).map some
+      | some (.arr xs) => (mapO ofDumpAxis xs).map some
       | _ => none
     let node_props_metadata ← ofDumpPropsDict (lookup kvs "node_props_metadata")
     let edge_props_metadata ← ofDumpPropsDict (lookup kvs "edge_props_metadata")
@@ -627,11 +676,11 @@ def ofDump : J → Option Meta
     let ellipsoid ← ofDumpOptStr (lookup kvs "ellipsoid")
     let track_node_props ← match lookup kvs "track_node_props" with
       | some .null => some none
-      | some (.obj l) => (l.mapM (fun (kv : String × J) => do let s ← ofDumpStr (some kv.2); return (kv.1, s))).map some
+      | some (.obj l) => (mapO (fun (kv : String × J) => (ofDumpStr (some kv.2)).map (fun s => (kv.1, s))) l).map some
       | _ => none
     let related_objects ← match lookup kvs "related_objects" with
       | some .null => some none
-      | some (.arr xs) => (xs.mapM ofDumpRelated).map some
+      | some (.arr xs) => (mapO ofDumpRelated xs).map some
       | _ => none
     let display_hints ← match lookup kvs "display_hints" with
       | some .null => some none
